@@ -245,3 +245,41 @@ package socks5
 //@   ghost_call Server.handleAuthentication: ghost(authres) = ite(result0 == nil, 1, 2)
 //@   assert_call Server.readRequest: [C11] s.config.AuthOpts.ClientSideAuthentication || ghost(authres) == 1
 
+
+//@ // Egress rules (C12: "configured egress rules are applied in order, first match wins"):
+//@ // a rule applies exactly when ruleMatches says so, and the action taken is the action of the
+//@ // first rule that applies - DIRECT when none does.
+//@ func (s *Server) matchEgressRule(addr net.IP, domain string, rule *appctlpb.EgressRule) (r bool)
+//@   property C12
+//@   mode int
+//@   ensures !r ==> !ruleMatches(addr, domain, rule)
+//@   ensures r && addr != nil ==> rule != nil && exists(k, 0, len(rule.IpRanges), rule.IpRanges[k] == "*" || (cidrValid(rule.IpRanges[k]) && cidrHas(rule.IpRanges[k], addr)))
+//@   ensures r && addr == nil ==> rule != nil && domain != "" && exists(k, 0, len(rule.DomainNames), rule.DomainNames[k] == "*" || domain == rule.DomainNames[k] || strHasSuffix(domain, "." + rule.DomainNames[k]))
+//@   witness rangeindex
+//@   witness rangeindex__2
+//@   loop 1:
+//@     modifies nothing
+//@     invariant -1 <= rangeindex && rangeindex < 9223372036854775807
+//@     invariant addr != nil && (rule != nil ==> !exists(k, 0, rangeindex + 1, rule.IpRanges[k] == "*" || (cidrValid(rule.IpRanges[k]) && cidrHas(rule.IpRanges[k], addr))))
+//@   loop 2:
+//@     modifies nothing
+//@     invariant -1 <= rangeindex__2 && rangeindex__2 < 9223372036854775807
+//@     invariant addr == nil && domain != "" && (rule != nil ==> !exists(k, 0, rangeindex__2 + 1, rule.DomainNames[k] == "*" || domain == rule.DomainNames[k] || strHasSuffix(domain, "." + rule.DomainNames[k])))
+//@
+//@ // First match wins: the action returned is the action of the first configured rule that
+//@ // applies to the destination, DIRECT if none applies (or the destination is empty).
+//@ func (s *Server) forwardToProxyAction(ctx context.Context, req *model.Request) (a egress.Action)
+//@   property C12
+//@   mode int
+//@   requires s != nil && s.config != nil && req != nil
+//@   ensures len(req.DstAddr.IP) == 0 && req.DstAddr.FQDN == "" ==> a.Action == 1
+//@   ensures !(len(req.DstAddr.IP) == 0 && req.DstAddr.FQDN == "") && s.config.Egress != nil ==> (exists(k, 0, len(s.config.Egress.Rules), ruleMatches(req.DstAddr.IP, req.DstAddr.FQDN, s.config.Egress.Rules[k]) && a.Action == ruleAction(s.config.Egress.Rules[k]) && forall(j, 0, k, !ruleMatches(req.DstAddr.IP, req.DstAddr.FQDN, s.config.Egress.Rules[j])))) || (a.Action == 1 && forall(j, 0, len(s.config.Egress.Rules), !ruleMatches(req.DstAddr.IP, req.DstAddr.FQDN, s.config.Egress.Rules[j])))
+//@   witness rangeindex
+//@   loop 1:
+//@     modifies nothing
+//@     invariant -1 <= rangeindex && rangeindex < 9223372036854775807
+//@     invariant s.config.Egress != nil ==> forall(j, 0, rangeindex + 1, !ruleMatches(req.DstAddr.IP, req.DstAddr.FQDN, s.config.Egress.Rules[j]))
+//@   loop 2:
+//@     modifies nothing
+//@     invariant -1 <= rangeindex__2 && rangeindex__2 < 9223372036854775807
+
